@@ -325,6 +325,18 @@ func (r *replayer) dispatch(line []byte) error {
 			return err
 		}
 		r.lawCase(c)
+	case "C10":
+		var c WalkCase
+		if err := json.Unmarshal(line, &c); err != nil {
+			return err
+		}
+		r.walkCase(c)
+	case "C09":
+		var c Case
+		if err := json.Unmarshal(line, &c); err != nil {
+			return err
+		}
+		r.pureCase(c)
 	case "C06":
 		var c Case
 		if err := json.Unmarshal(line, &c); err != nil {
